@@ -287,7 +287,7 @@ where
 //@ requires old(self).wf(),
 //@ ensures
 //@     // C14: the session stays usable whatever happens: editor and decoder are put back, the line is well-formed text
-//@     final(self).wf(),   // [C14,~C03]
+//@     final(self).wf(),   // [C14,~C03,~C15]
 //@     // C14: a failed sink operation is never swallowed.  C15: whatever was written has been flushed
 //@     r is Ok ==> final(self).errs() == old(self).errs(),   // [C14]
 //@     r is Ok ==> (final(self).evs() == old(self).evs() || final(self).evs().len() > 0 && final(self).evs().last() is F),   // [C15]
